@@ -3,6 +3,7 @@ import SuitVerif.Encode
 import SuitVerif.Generated.Schema
 import SuitVerif.Generated.Guards
 import SuitVerif.Registry
+import SuitVerif.Spec
 import SuitVerif.Hash.Sha2
 import SuitVerif.Hash.Keccak
 open Lean SuitVerif SuitVerif.Py
@@ -60,6 +61,11 @@ def hashFn (alg : String) (b : Bytes) : Bytes :=
   | "cose-alg-shake256" => Hash.shake256 len b
   | _ => []
 
+/-- the verifier's digest table, by COSE algorithm identifier, with the registry's output lengths -/
+def hashById : Spec.HashById := fun i =>
+  if i == -16 then some Hash.sha256 else if i == -43 then some Hash.sha384 else if i == -44 then some Hash.sha512
+  else if i == -18 then some (Hash.shake128 16) else if i == -45 then some (Hash.shake256 32) else none
+
 def errName : Err → String
   | .valueError => "ValueError" | .suitError => "SUITError" | .osError => "OSError"
   | .internal k => "internal:" ++ k | .fuel => "model-fuel" | .model w => "model-" ++ w
@@ -109,6 +115,9 @@ def handle (op : String) (j : Json) : Option (M Json) :=
             .arr (sp.2.map (fun e => Json.arr #[.str e.1, intJ e.2])).toArray])).toArray),
         ("tags", .arr (Registry.tags.map (fun t => Json.arr #[.str t.1, natJ t.2])).toArray),
         ("hash_lengths", .arr (Registry.hashLengths.map (fun t => Json.arr #[.str t.1, natJ t.2])).toArray)]))
+  | "spec.C01" => some do
+      let b ← hexField j "bytes"
+      pure (okJ (Json.mkObj [("root_and_severed", .bool (Spec.check1 hashById b)), ("recursive", .bool (Spec.checkRec hashById 8 b))]))
   | "suit.hash" => some do
       pure (okHex (hashFn (← strField j "alg") (← hexField j "data")))
   | _ => none
